@@ -1,5 +1,6 @@
 import GeoVerif.Model.Effects
 import GeoVerif.Proofs.Effects
+import GeoVerif.Gen.Effects
 /-!
 # C14 — shared immutable objects are safe to use from many threads
 
@@ -147,8 +148,105 @@ example : writesTo (0 : Nat) (srun ({ val := fun _ => 99, inited := fun _ => fal
 
 /-- **A prefilled fill-on-miss cache is never written.**  `lazyWrites filled k` is the dynamic write set of
 `if (block k unfilled) fill(k)`; if every demanded block was filled at construction it is empty for every demand. -/
-theorem prefilled_cache_never_written (filled demanded : List Nat) (h : ∀ k ∈ demanded, k ∈ filled) :
+theorem prefilled_cache_never_written {α : Type} [DecidableEq α] (filled demanded : List α) (h : ∀ k ∈ demanded, k ∈ filled) :
     ∀ k ∈ demanded, lazyWrites filled k = [] := by
   intro k hk; simp [lazyWrites, h k hk]
+
+/-! ## Obligations on the effect table extracted from the current sources (`Gen/Effects.lean`, regenerated on every run) -/
+section Table
+open GeoVerif.Gen.Effects
+
+/-- all ordered pairs (auxout, auxin) of distinct auxiliary latitudes: the coefficient blocks the series branch of
+`AuxLatitude::Convert` / `DAuxLatitude::DConvert` can demand (`k = ind(auxout, auxin)`, `auxin ≠ auxout`, both in range) -/
+def auxDemanded (n : Nat) : List (Nat × Nat) :=
+  (List.range n).flatMap fun o => ((List.range n).filter (· ≠ o)).map fun i => (o, i)
+
+/-- **Gen-obligation.**  There are (at least) the two public constructors, and every constructor of `AuxLatitude` eagerly
+fills every block that `Convert`/`DConvert` can demand: the guard `isnan(_c[…])` of the lazy fill is false from
+construction on (fix 3af0ef0 of finding F1; seeded change C14A narrows one loop and breaks this). -/
+theorem auxlat_prefill_covers :
+    2 ≤ auxFilled.length ∧ ∀ c ∈ auxFilled, ∀ k ∈ auxDemanded auxNumber, k ∈ c.2 := by decide +kernel
+
+/-- with the previous theorem: no demanded block of any AuxLatitude object is ever written after construction -/
+theorem auxlat_cache_never_written : ∀ c ∈ auxFilled, ∀ k ∈ auxDemanded auxNumber, lazyWrites c.2 k = [] :=
+  fun c hc k hk => by
+    have := auxlat_prefill_covers.2 c hc k hk
+    simp [lazyWrites, this]
+
+/-- **Gen-obligation `fft_sizes_smooth`.**  Every FFT length reachable from `GeodesicExact` (the decoded entries of
+`narr[]`, doubled as `DST` does) is 5-smooth (2^a 3^b 5^c). -/
+theorem fft_sizes_smooth : fftSizes ≠ [] ∧ ∀ n ∈ fftSizes, fiveSmooth n = true := by decide +kernel
+
+/-- the explicit case labels of the radix switch in `kissfft::transform` cover every stage radix that kissfft's own
+factorisation (model `kissRadices`, compared with the implementation by the `fftradix` ops) produces for those lengths:
+the `default:` label — the only path to `kf_bfly_generic`, the only writer of the mutable `_scratchbuf` — is not reached -/
+def radicesCovered (cases : List Nat) : Bool := fftSizes.all fun n => (kissRadices n).all cases.contains
+
+/-- **Gen-obligation.**  With dedicated butterflies for 2, 3, 4, 5 the generic butterfly is unreachable from GeodesicExact. -/
+theorem fft_generic_butterfly_unreachable : radicesCovered [2, 3, 4, 5] = true := by decide +kernel
+
+/-- the certificates used by `effects_disjoint` -/
+def certs : Certs where
+  prefilled := if (2 ≤ auxFilled.length ∧ ∀ c ∈ auxFilled, ∀ k ∈ auxDemanded auxNumber, k ∈ c.2) then ["AuxLatitude::_c"] else []
+  defaultUnreachable := fun cases => if radicesCovered cases then ["kissfft::_scratchbuf"] else []
+
+/-- **Gen-obligation `effects_disjoint`.**  In the extracted table no const member function and no static member function of
+the classes in the property's quantifier writes a shared location (mutable member, non-const static), transitively
+within the library — except the exclusions of the property statement (ordinary Geoid cache, Intersect counters,
+NearestNeighbor statistics, growth of the SphericalEngine square-root table), the AuxLatitude coefficient cache whose
+fill-on-miss guard is certified false by `auxlat_prefill_covers`, and kissfft's scratch buffer whose only writer sits behind
+the `default` label certified unreachable by `fft_generic_butterfly_unreachable`.  (Seeded change C14B adds a non-const
+function-local static written by the const `DST::fft_transform`; it appears here as an offender.) -/
+theorem effects_disjoint : offenders certs functions = [] := by decide +kernel
+
+/-- the table is not empty and does contain the classes of the quantifier (non-vacuity of `effects_disjoint`) -/
+theorem effects_table_nonvacuous :
+    500 ≤ functions.length ∧
+    (["Geodesic", "GeodesicExact", "GeodesicLine", "GeodesicLineExact", "Rhumb", "RhumbLine", "TransverseMercator", "TransverseMercatorExact",
+      "PolarStereographic", "LambertConformalConic", "AlbersEqualArea", "Geocentric", "LocalCartesian", "Ellipsoid", "AuxLatitude", "EllipticFunction",
+      "NormalGravity", "SphericalHarmonic", "GravityModel", "MagneticModel", "Geoid", "UTMUPS", "MGRS", "DMS", "Geohash", "GARS", "Georef", "OSGB", "DST", "kissfft"].all
+      fun c => functions.any (·.cls == c)) = true ∧
+    -- the lazy fill and the scratch buffer *are* seen by the extractor (they are discharged by certificates, not overlooked)
+    (functions.any fun e => e.cls == "AuxLatitude" && e.writes.any (fun w => w.loc == "AuxLatitude::_c" && w.guards.contains .miss)) = true ∧
+    (functions.any fun e => e.cls == "GeodesicExact" && e.writes.any (fun w => w.loc == "kissfft::_scratchbuf")) = true ∧
+    (functions.any fun e => e.cls == "Geoid" && e.writes.any (fun w => w.loc == "Geoid::_ix")) = true := by decide +kernel
+
+/-- **Gen-obligation.**  Every variable of static storage duration in the library is `const` (so it is written only by its
+own initialiser, see `static_init_once`) or is a documented exclusion (the square-root table). -/
+theorem statics_const_or_excluded : (locations.filter (fun d => !staticOK d)).map (·.name) = [] := by decide +kernel
+
+/-- **Gen-obligation.**  Every `mutable` data member is a documented exclusion or one of the two certified caches. -/
+theorem mutable_members_accounted :
+    (locations.filter (fun d => !mutableOK ["AuxLatitude::_c", "kissfft::_scratchbuf"] d)).map (·.name) = [] := by decide +kernel
+
+/-- **Gen-obligation.**  The library contains no `const_cast` (so immutable members are not written by const functions). -/
+theorem no_const_cast : constCasts = [] := by decide +kernel
+
+/-- **Gen-obligation (thread-safe Geoid).**  Every write to a `mutable` member by a const function of `Geoid` is executed only
+when `_threadsafe` is false (`if (!_threadsafe) …`, or after `if (_threadsafe) throw …`), except accesses to the file
+stream, which a thread-safe Geoid (whole raster cached by the constructor, file closed) does not reach — C20. -/
+theorem geoid_threadsafe_guarded :
+    ((functions.filter (fun e => e.cls == "Geoid")).flatMap fun e =>
+      (e.writes.filter (fun w => !geoidWriteOK ["Geoid::_file"] w)).map fun w => (e.fn, w.loc)) = [] := by decide +kernel
+
+/-- **The table and the theorem together.**  Take any program whose operations are const/static functions of the quantifier's
+classes with the read sets of the table and as write sets the table's writes that are neither excluded nor certified
+away.  Then every interleaving is race-free and every call returns the value it returns alone from the initial state. -/
+theorem shared_const_calls_race_free {Val Ret : Type} (P : List (List (Op String Val Ret)))
+    (hP : ∀ T ∈ P, ∀ o ∈ T, ∃ e ∈ functions, quantifierClasses.contains e.cls = true ∧ e.isPublic = true ∧ o.reads = e.reads ∧ o.writes = effWrites certs e)
+    (σ₀ : State String Val) (tr : Trace String Val Ret) (h : Interleave P tr) :
+    RaceFree tr ∧ ∀ i T, P[i]? = some T → resultsOf i (runTrace σ₀ tr).2 = T.map (fun o => (o.step σ₀).2) := by
+  apply readonly_returns_solo_value P _ σ₀ tr h
+  intro T hT o ho
+  obtain ⟨e, he, hq, hpub, _, hw⟩ := hP T hT o ho
+  have hoff := effects_disjoint
+  simp only [offenders, List.map_eq_nil_iff, List.filter_eq_nil_iff] at hoff
+  have hfn : fnOK certs e = true := by simpa using hoff e he
+  simp only [fnOK, hq, hpub, Bool.and_self, Bool.not_true, Bool.false_or, List.all_eq_true] at hfn
+  rw [hw, effWrites, List.map_eq_nil_iff, List.filter_eq_nil_iff]
+  intro w hwm
+  simp [hfn w hwm]
+
+end Table
 
 end GeoVerif.Props.C14
